@@ -1,5 +1,5 @@
 import MokapotVerif.Wire
-import MokapotVerif.Ops.Qvalues
+import MokapotVerif.OpsAll
 /-!
 Line-protocol driver: `op arg…` per line in, one value per line out.
 Imports only `Wire`, `Model/*`, `Spec/*`, `Ops/*` (all import-free), so it
@@ -7,9 +7,6 @@ links as a native executable.  Unknown ops and ill-formed arguments answer
 `bad-op` / `bad-args`; nothing is defaulted.
 -/
 open Mk Mk.V Mk.Ops
-
-def allOps : List (String × (List V → Option V)) :=
-  qvaluesOps
 
 def handle (line : String) : String :=
   match parseLine line with
